@@ -34,6 +34,12 @@ CLAIMED = {
    note="Trusted: Lean kernel; the table translator (executes the real functions); model of the emitters' decision (tied by correspondence); floats are compared on exactly representable values only; MATLAB is text-level only. Known finding: Python floors integer division.",
    technique="Lean 4 proof by kernel-checked case analysis over regenerated tables + differential correspondence",
    design="§7 C19"),
+ "C18": dict(
+   engine="imports",
+   text="Kernel-checked theorems about a model of collectPackages that is structurally recursive on the tool's own depth counter (so loading terminates for every graph): a successful load contains the root, only reachable packages, every reachable package with all its imports, and binds each namespace to one directory; hence a reachable namespace conflict or missing import makes loading fail. Cycle, depth-limit and order-dependence witnesses are kernel-evaluated. Tied to the code by comparing model, an independent graph specification and the real CLI exhaustively on all worlds with <= 2 packages, sampled/all on 3, random larger ones, chains/diamonds at the depth limit and permuted import orders.",
+   note="Trusted: Lean kernel; hand transliteration of collectPackages (tied by exhaustive small-world runs); git-URL imports and the cache are not modelled (local directories only). 'cycle => error' and 'too deep => error' in general are decided by the exhaustive/random correspondence, not by a theorem. Known finding: order dependence at the depth limit.",
+   technique="Lean 4 proof (invariant over the recursive collection) + exhaustive small-world differential correspondence",
+   design="§7 C18"),
 }
 NOT_YET = "machinery for this property is not built yet in this round (see DESIGN.md §10 build order)"
 checks, na = [], []
@@ -63,6 +69,8 @@ m = {
  "engines": [
    {"name": "expr", "path": "lean/YardlModel/Expr.lean", "serves_properties": ["C19"],
     "kind_free_text": "typing/parenthesisation model of computed fields over tables regenerated from /repo (harness/py/gen_tables.py, harness/go/cmd/inproc)"},
+   {"name": "imports", "path": "lean/YardlModel/Imports.lean", "serves_properties": ["C18"],
+    "kind_free_text": "model of collectPackages; worlds enumerated by checks/c18.py"},
    {"name": "wire", "path": "lean/YardlModel/Wire.lean", "serves_properties": ["C01", "C03", "C15", "C16", "C17"],
     "kind_free_text": "Lean model of the binary format + buffered stream implementations; line-protocol driver lean/Main/WireDriver.lean"},
  ],
